@@ -25,6 +25,7 @@ pub struct Packet {
 ///
 /// Due to the nature of the RTMP chunking protocol, the same serializer should be used
 /// for all messages that need to be sent to the same peer.
+#[cfg_attr(feature = "verif", derive(Clone))]
 pub struct ChunkSerializer {
     previous_headers: HashMap<u32, ChunkHeader>,
     max_chunk_size: u32,
@@ -329,6 +330,10 @@ fn get_header_format(
 
     ChunkHeaderFormat::Empty
 }
+
+#[cfg(feature = "verif")]
+#[path = "verif_serializer.rs"]
+mod verif;
 
 #[cfg(test)]
 mod tests {
